@@ -274,15 +274,15 @@ theorem roundtripArg (close : Tok) (hcl : close = rp ∨ close = rb) (e : Py) (h
   | .name s, _ => exact PArg.pos (roundtrip _ (by simp [WL, WLb]) 0 _ _ _ (Nat.zero_le _) (fun _ => (hcs _).1) (hcs 0).2 (PLoop.stop (hcs 0).1))
   | .str s, _ => exact PArg.pos (roundtrip _ (by simp [WL, WLb]) 0 _ _ _ (Nat.zero_le _) (fun _ => (hcs _).1) (hcs 0).2 (PLoop.stop (hcs 0).1))
   | .hole i, _ => exact PArg.pos (roundtrip _ (by simp [WL, WLb]) 0 _ _ _ (Nat.zero_le _) (fun _ => (hcs _).1) (hcs 0).2 (PLoop.stop (hcs 0).1))
-  | .paren e, hw => exact PArg.pos (roundtrip _ (by simpa [WLbArg] using hw) 0 _ _ _ (Nat.zero_le _) (fun _ => (hcs _).1) (hcs 0).2 (PLoop.stop (hcs 0).1))
-  | .neg e, hw => exact PArg.pos (roundtrip _ (by simpa [WLbArg] using hw) 0 _ _ _ (Nat.zero_le _) (fun _ => (hcs _).1) (hcs 0).2 (PLoop.stop (hcs 0).1))
-  | .not e, hw => exact PArg.pos (roundtrip _ (by simpa [WLbArg] using hw) 0 _ _ _ (Nat.zero_le _) (fun _ => (hcs _).1) (hcs 0).2 (PLoop.stop (hcs 0).1))
-  | .bin k l r, hw => exact PArg.pos (roundtrip _ (by simpa [WLbArg] using hw) 0 _ _ _ (Nat.zero_le _) (fun _ => (hcs _).1) (hcs 0).2 (PLoop.stop (hcs 0).1))
-  | .ite x c y, hw => exact PArg.pos (roundtrip _ (by simpa [WLbArg] using hw) 0 _ _ _ (Nat.zero_le _) (fun _ => (hcs _).1) (hcs 0).2 (PLoop.stop (hcs 0).1))
-  | .attr e a, hw => exact PArg.pos (roundtrip _ (by simpa [WLbArg] using hw) 0 _ _ _ (Nat.zero_le _) (fun _ => (hcs _).1) (hcs 0).2 (PLoop.stop (hcs 0).1))
-  | .call f args, hw => exact PArg.pos (roundtrip _ (by simpa [WLbArg] using hw) 0 _ _ _ (Nat.zero_le _) (fun _ => (hcs _).1) (hcs 0).2 (PLoop.stop (hcs 0).1))
-  | .index e i, hw => exact PArg.pos (roundtrip _ (by simpa [WLbArg] using hw) 0 _ _ _ (Nat.zero_le _) (fun _ => (hcs _).1) (hcs 0).2 (PLoop.stop (hcs 0).1))
-  | .list es, hw => exact PArg.pos (roundtrip _ (by simpa [WLbArg] using hw) 0 _ _ _ (Nat.zero_le _) (fun _ => (hcs _).1) (hcs 0).2 (PLoop.stop (hcs 0).1))
+  | .paren e, hw => exact PArg.pos (roundtrip _ (by simpa [WLbArg, WL, WLb] using hw) 0 _ _ _ (Nat.zero_le _) (fun _ => (hcs _).1) (hcs 0).2 (PLoop.stop (hcs 0).1))
+  | .neg e, hw => exact PArg.pos (roundtrip _ (by simpa [WLbArg, WL, WLb] using hw) 0 _ _ _ (Nat.zero_le _) (fun _ => (hcs _).1) (hcs 0).2 (PLoop.stop (hcs 0).1))
+  | .not e, hw => exact PArg.pos (roundtrip _ (by simpa [WLbArg, WL, WLb] using hw) 0 _ _ _ (Nat.zero_le _) (fun _ => (hcs _).1) (hcs 0).2 (PLoop.stop (hcs 0).1))
+  | .bin k l r, hw => exact PArg.pos (roundtrip _ (by simpa [WLbArg, WL, WLb] using hw) 0 _ _ _ (Nat.zero_le _) (fun _ => (hcs _).1) (hcs 0).2 (PLoop.stop (hcs 0).1))
+  | .ite x c y, hw => exact PArg.pos (roundtrip _ (by simpa [WLbArg, WL, WLb] using hw) 0 _ _ _ (Nat.zero_le _) (fun _ => (hcs _).1) (hcs 0).2 (PLoop.stop (hcs 0).1))
+  | .attr e a, hw => exact PArg.pos (roundtrip _ (by simpa [WLbArg, WL, WLb] using hw) 0 _ _ _ (Nat.zero_le _) (fun _ => (hcs _).1) (hcs 0).2 (PLoop.stop (hcs 0).1))
+  | .call f args, hw => exact PArg.pos (roundtrip _ (by simpa [WLbArg, WL, WLb] using hw) 0 _ _ _ (Nat.zero_le _) (fun _ => (hcs _).1) (hcs 0).2 (PLoop.stop (hcs 0).1))
+  | .index e i, hw => exact PArg.pos (roundtrip _ (by simpa [WLbArg, WL, WLb] using hw) 0 _ _ _ (Nat.zero_le _) (fun _ => (hcs _).1) (hcs 0).2 (PLoop.stop (hcs 0).1))
+  | .list es, hw => exact PArg.pos (roundtrip _ (by simpa [WLbArg, WL, WLb] using hw) 0 _ _ _ (Nat.zero_le _) (fun _ => (hcs _).1) (hcs 0).2 (PLoop.stop (hcs 0).1))
 theorem roundtripCallArgs (es : List Py) (hw : WLbArgs 0 es = true) (hne : es ≠ []) (rest : List Tok) :
     PArgs rp (prArgs es ++ rp :: rest) es rest := by
   match es, hw with
@@ -496,15 +496,15 @@ theorem substArg_wl (L : Nat) (σ : Nat → Py) (hσ : ∀ i, Good L (σ i)) (e 
   | .num _, _ => simp [subst, WLbArg, noHole]
   | .name _, _ => simp [subst, WLbArg, noHole]
   | .str _, _ => simp [subst, WLbArg, noHole]
-  | .paren e, hw => simpa [subst, WLbArg] using subst_wl L σ hσ (.paren e) (by simpa [WLbArg] using hw)
-  | .neg e, hw => simpa [subst, WLbArg] using subst_wl L σ hσ (.neg e) (by simpa [WLbArg] using hw)
-  | .not e, hw => simpa [subst, WLbArg] using subst_wl L σ hσ (.not e) (by simpa [WLbArg] using hw)
-  | .bin k l r, hw => simpa [subst, WLbArg] using subst_wl L σ hσ (.bin k l r) (by simpa [WLbArg] using hw)
-  | .ite x c y, hw => simpa [subst, WLbArg] using subst_wl L σ hσ (.ite x c y) (by simpa [WLbArg] using hw)
-  | .attr e a, hw => simpa [subst, WLbArg] using subst_wl L σ hσ (.attr e a) (by simpa [WLbArg] using hw)
-  | .call f args, hw => simpa [subst, WLbArg] using subst_wl L σ hσ (.call f args) (by simpa [WLbArg] using hw)
-  | .index e i, hw => simpa [subst, WLbArg] using subst_wl L σ hσ (.index e i) (by simpa [WLbArg] using hw)
-  | .list es, hw => simpa [subst, WLbArg] using subst_wl L σ hσ (.list es) (by simpa [WLbArg] using hw)
+  | .paren e, hw => simpa [subst, WLbArg, WLb] using subst_wl L σ hσ (.paren e) (by simpa [WLbArg, WLb] using hw)
+  | .neg e, hw => simpa [subst, WLbArg, WLb] using subst_wl L σ hσ (.neg e) (by simpa [WLbArg, WLb] using hw)
+  | .not e, hw => simpa [subst, WLbArg, WLb] using subst_wl L σ hσ (.not e) (by simpa [WLbArg, WLb] using hw)
+  | .bin k l r, hw => simpa [subst, WLbArg, WLb] using subst_wl L σ hσ (.bin k l r) (by simpa [WLbArg, WLb] using hw)
+  | .ite x c y, hw => simpa [subst, WLbArg, WLb] using subst_wl L σ hσ (.ite x c y) (by simpa [WLbArg, WLb] using hw)
+  | .attr e a, hw => simpa [subst, WLbArg, WLb] using subst_wl L σ hσ (.attr e a) (by simpa [WLbArg, WLb] using hw)
+  | .call f args, hw => simpa [subst, WLbArg, WLb] using subst_wl L σ hσ (.call f args) (by simpa [WLbArg, WLb] using hw)
+  | .index e i, hw => simpa [subst, WLbArg, WLb] using subst_wl L σ hσ (.index e i) (by simpa [WLbArg, WLb] using hw)
+  | .list es, hw => simpa [subst, WLbArg, WLb] using subst_wl L σ hσ (.list es) (by simpa [WLbArg, WLb] using hw)
 end
 
 theorem subst_good (L : Nat) (σ : Nat → Py) (hσ : ∀ i, Good L (σ i)) (s : Py) (hw : WLb L s = true)
